@@ -8,6 +8,7 @@ import (
 	"bytes"
 	"encoding/hex"
 	"fmt"
+	"strings"
 	"testing"
 
 	"github.com/tokenized/spynode/internal/verifkit"
@@ -53,12 +54,24 @@ func c20Judge(b []byte, note string, rep *verifkit.Report) (*c15Violation, bool)
 			rep.Exclude(key)
 			return nil, true
 		}
+		if strings.HasSuffix(key, "/unknown") || strings.HasSuffix(key, "/unattributed") {
+			// the cause could not be attributed to a function (no usable stack in the crash report or
+			// the heap profile): it may be one of the known dependency findings, so no verdict
+			rep.Label("cause-not-attributed", 1)
+			return nil, true
+		}
 		return &c15Violation{key, fmt.Sprintf("decoding %d bytes (%s) killed the process: %s (at %s)", len(b), note, dmsg, dsite)}, true
 	}
 	if o.Panicked {
 		key := "C20/panic/" + verifkit.SiteKey(o.PanicSite)
 		if verifkit.Known(key) {
 			rep.Exclude(key)
+			return nil, true
+		}
+		if strings.HasSuffix(key, "/unknown") || strings.HasSuffix(key, "/unattributed") {
+			// the cause could not be attributed to a function (no usable stack in the crash report or
+			// the heap profile): it may be one of the known dependency findings, so no verdict
+			rep.Label("cause-not-attributed", 1)
 			return nil, true
 		}
 		return &c15Violation{key, fmt.Sprintf("decoding %d bytes (%s) panicked: %s", len(b), note, o.PanicMsg)}, true
@@ -71,6 +84,12 @@ func c20Judge(b []byte, note string, rep *verifkit.Report) (*c15Violation, bool)
 		key := "C20/alloc/" + verifkit.SiteKey(site)
 		if verifkit.Known(key) {
 			rep.Exclude(key)
+			return nil, true
+		}
+		if strings.HasSuffix(key, "/unknown") || strings.HasSuffix(key, "/unattributed") {
+			// the cause could not be attributed to a function (no usable stack in the crash report or
+			// the heap profile): it may be one of the known dependency findings, so no verdict
+			rep.Label("cause-not-attributed", 1)
 			return nil, true
 		}
 		return &c15Violation{key, fmt.Sprintf("decoding %d bytes (%s) allocated %d bytes (budget %d) at %s", len(b), note, o.Alloc, verifkit.AllocBound(len(b)), site)}, true
